@@ -134,24 +134,29 @@ def jobs_c13(tier, seed):
         ("effects_set_laws", "two free effect sets (4096 x 4096), complete"),
         ("effects_iter_order", "every effect set, complete"),
         ("effects_debug_single_names", "each of the 12 effects and the empty set, byte-exact"),
-        ("effects_debug_names_lo", "every set of the first six effects (fragment-level tokenisation)"),
-        ("effects_debug_names_hi", "every set of the last six effects"),
-        ("effects_debug_names_ends", "every set of the first three and last three effects"),
+        ("effects_debug_names_all12", "debug text of the set of all twelve effects (concrete set; fragment-level tokenisation)"),
+        ("effects_debug_names_alternating", "debug text of the concrete set 0xA55"),
+        ("effects_debug_names_two", "debug text of the concrete set {first, last}"),
         ("style_setters_getters", "free style x free colours, complete"),
         ("style_convenience_and_ops", "free style x free effect sets, complete"),
         ("style_eq_effects", "free style x free effect set, complete"),
         ("ansi_256_bijection", "all 16 colours / all 256 indices, complete"),
         ("bright_projection", "all 16 colours, complete"),
     ]
-    jobs = [J(f"c13::{n}", features=f, timeout_s=1800, mem_gb=24, expect_gb=8 if "debug_names" in n else 3, bound=b) for n, b in names]
+    jobs = [J(f"c13::{n}", features=f, timeout_s=1800, mem_gb=24, expect_gb=3, bound=b) for n, b in names]
     if tier == "thorough":
-        jobs.append(J("c13::effects_debug_names", features=f, timeout_s=2 * 3600, mem_gb=50, expect_gb=40, optional=True, bound="debug text of every effect set (all 4096), complete; needs more than 24 GB"))
+        jobs.append(J("c13::effects_debug_names", features=f, timeout_s=2 * 3600, mem_gb=50, expect_gb=45, optional=True, bound="debug text of every effect set (all 4096), complete; needs more than 24 GB"))
+        jobs.append(J("c13::effects_debug_names_lo", features=f, timeout_s=3600, mem_gb=40, expect_gb=26, optional=True, bound="debug text of every set of the first six effects (23+ GB)"))
+        jobs.append(J("c13::effects_debug_names_hi", features=f, timeout_s=3600, mem_gb=40, expect_gb=26, optional=True, bound="debug text of every set of the last six effects (23+ GB)"))
     return jobs
 
 
 def jobs_c01(tier, seed):
     f = ["c01"]
     jobs = []
+    if tier == "thorough":
+        for n, w in [("apc", "APC"), ("pm", "PM"), ("sos", "SOS"), ("dcs", "DCS"), ("osc", "OSC")]:
+            jobs.append(J(f"c01::str_in_{n}", features=f, timeout_s=3600, mem_gb=20, expect_gb=11, bound=f"strip_str: ESC, the {w} introducer, every 2-byte character (a slice of the 4-byte text query; 9 min / 10 GB)"))
     ns = [1, 2, 3] if tier == "quick" else [1, 2, 3, 4, 5]
     for n in ns:
         to = {1: 300, 2: 600, 3: 900, 4: 3600, 5: 3 * 3600}[n]
@@ -196,6 +201,7 @@ def jobs_c04(tier, seed):
     if tier == "thorough":
         add("c01::bytes_oneshot_4", ["c01"], "strip_bytes: every 4-byte string", to=2 * 3600, mem=24, opt=True)
         add("c01::str_oneshot_3", ["c01"], "strip_str: every 3-byte UTF-8 string", to=3600, mem=20)
+        add("c01::str_in_apc", ["c01"], "strip_str: ESC _ and every 2-byte character: slicing inside a skipped string control", to=3600, mem=30, opt=True)
         add("c05::slot_underline", ["c05"], "DisplayBuffer via the underline slot (longest code), every colour")
         add("c02::step_dcs_passthrough", ["c02"], "parser step in DcsPassthrough")
         add("c02::step_escape_intermediate", ["c02"], "parser step in EscapeIntermediate")
@@ -251,7 +257,7 @@ def jobs_c08(tier, seed):
         ("never_state_carried_across_calls", f"AutoStream::never: write_all ending inside an escape sequence, then write_all of any byte, {vs}", 7, True),
         ("never_flush", "AutoStream::never: flush", 1, True),
         ("never_spec_write_1", f"AutoStream::never: one write() of 1 symbolic byte {sp}", 11, True),
-        ("never_spec_write_vectored_0", f"AutoStream::never: one write_vectored() (empty slice, 1 symbolic byte) {sp}", 11, True),
+        ("never_spec_write_vectored_0", f"AutoStream::never: one write_vectored() (empty slice, 1 symbolic byte) {sp}", 11, False),
         ("never_write_all_1", f"AutoStream::never: one write_all() of 1 symbolic byte {vs}", 6, False),
         ("new_never_write_all_2", f"AutoStream::new(.., Never): one write_all() of 2 symbolic bytes {vs}", 6, False),
         ("never_spec_write_2", f"AutoStream::never: one write() of 2 symbolic bytes {sp}", 11, False),
@@ -617,7 +623,7 @@ REGISTRY = {
         "jobs": jobs_c08,
         "level": "model_checking",
         "functions": ["anstream::AutoStream::{new, never, always, always_ansi, into_inner, current_choice} and its io::Write impl over &mut dyn Write and Vec<u8>", "anstream::StripStream (oracle for Never)"],
-        "bounds": {"quick": "pass-through: every sequence of 2 write-family operations (kind symbolic among write/write_all/write_vectored/write_fmt/flush), payloads <=2 bytes; Never (concrete in-memory raw stream via the Sealed hook): write_all of 1-2 symbolic bytes and a two-call sequence cut inside an escape sequence against a StripStream fed the same operations; write() and write_vectored() of 1 symbolic byte against the strip specification; flush; owned Vec<u8> into_inner", "thorough": "adds the other payload lengths / constructors for write, write_all, write_vectored, and (optional, >14 GB or >20 min each) write_fmt, write() against a second stream, Never over &mut dyn Write"},
+        "bounds": {"quick": "pass-through: every sequence of 2 write-family operations (kind symbolic among write/write_all/write_vectored/write_fmt/flush), payloads <=2 bytes; Never (concrete in-memory raw stream via the Sealed hook): write_all of 1-2 symbolic bytes and a two-call sequence cut inside an escape sequence against a StripStream fed the same operations; write() of 1 symbolic byte against the strip specification; flush; owned Vec<u8> into_inner", "thorough": "adds Never write_vectored, the other payload lengths / constructors for write and write_all, and (optional, >14 GB or >20 min each) write_fmt, write() against a second stream, Never over &mut dyn Write"},
         "outside": "longer operation sequences and payloads; files and boxed writers (same generic code); ColorChoice::Auto is C09; Windows arms",
         "assumptions": ["Never is compared with a StripStream fed the same operations (C01/C06 tie the strip stream to the model)"],
     },
@@ -795,8 +801,8 @@ REGISTRY = {
             "anstyle::AnsiColor::{bright,is_bright}",
             "anstyle::Ansi256Color::{into_ansi,from_ansi,index}",
         ],
-        "bounds": {"quick": "complete over the finite value space (bit-vector reasoning) for every law except the Debug text of multi-member sets, which is decided for three 6-effect windows (192 of the 4096 sets) plus every single effect byte-exact", "thorough": "Debug text for all 4096 sets as well (optional: needs more than 24 GB)"},
-        "outside": "quick: Debug text of sets that mix effects across the three windows; Debug is checked through core::fmt into a fixed sink",
+        "bounds": {"quick": "complete over the finite value space (bit-vector reasoning) for every law except the Debug text of multi-member sets: every single-member set and the empty set byte-exact (symbolic choice), three concrete multi-member sets for separators and order", "thorough": "Debug text for all 4096 sets as well (optional: needs more than 24 GB)"},
+        "outside": "quick: Debug text of the other multi-member sets (the symbolic query needs 23+ GB even for 6-effect windows); Debug is checked through core::fmt into a fixed sink",
         "trusted": ["Kani 0.68 MIR->goto", "CBMC 6.11 + CaDiCaL", "core::fmt as compiled by Kani"],
         "assumptions": ["Effects values are exactly those constructible through the public API (12 bits)"],
     },
